@@ -1212,6 +1212,8 @@ def body(ctx):
         "the values setter clips without flagging while __setattr__ flags: not generated for assignments, only for constructor "
         "defaults / maxs (accepted and clipped)",
         "whether a read-only transform call itself raises (domain errors, Manly's unbound names) is not compared: only the state after it",
+        "copy.deepcopy / pickle are outside the property's operations: observations at such a step, or later in a history in which "
+        "one of them produced an object, are correspondence-only (disagreement), never a failing input",
         "numpy.clip / astype / flatten / copy are external: observed through values and np.shares_memory, modelled as fresh allocations",
     ]
 
